@@ -100,11 +100,13 @@ def correspond(tier):
         c2.sample({"clustering": clustering, "kernel": kernel, "logZ by seed": vals})
     from . import pipelinex
     ce = pipelinex.suite_real_runs(tier, "C02.e", "evidence")
+    # every run in volume-variation mode, half with tight targets: per-iteration logz where the dynamic mode HOLDS beta
+    cv = pipelinex.suite_replay(tier, "C02.v", n_quick=12, n_thorough=60, force_vv=True, name="dynamic-mode-trace-replay")
     c3 = _isolation_suite(tier)
     from . import psoracles
     ct = psoracles.suite_same_temperature(tier, "C02")
     from .c01 import _dependency_suites
-    return [c, ce, c2, c3, ct] + _dependency_suites(tier)
+    return [c, ce, cv, c2, c3, ct] + _dependency_suites(tier)
 
 
 def _isolation_suite(tier):
